@@ -80,8 +80,61 @@ func presentNeverSkipped(r *core.Run, rel, fn, what string) {
 		}
 		return false
 	}
+	// positive spelling: the delivery (an append to something that outlives the iteration, or
+	// a call of a function-typed parameter) sits inside `if <presence> { … }`
+	isPositive := func(cond ast.Expr) bool {
+		switch x := core.Unparen(cond).(type) {
+		case *ast.CallExpr:
+			return strings.HasSuffix(core.CalleeName(info, x), "protoreflect.Message).Has")
+		case *ast.Ident:
+			return fetched[info.Uses[x]]
+		}
+		return false
+	}
+	var delivery ast.Node
+	ast.Inspect(body, func(n ast.Node) bool {
+		if delivery != nil {
+			return false
+		}
+		switch x := n.(type) {
+		case *ast.FuncLit:
+			return false
+		case *ast.AssignStmt:
+			if len(x.Rhs) == 1 {
+				if c, ok := core.Unparen(x.Rhs[0]).(*ast.CallExpr); ok && core.CalleeName(info, c) == "builtin.append" && len(x.Lhs) == 1 && core.ExprStr(c.Args[0]) == core.ExprStr(x.Lhs[0]) {
+					if root := rootIdent(x.Lhs[0]); root != nil {
+						if o := info.Uses[root]; o != nil && !(o.Pos() >= body.Pos() && o.Pos() < body.End()) {
+							delivery = x
+						}
+					}
+				}
+			}
+		case *ast.CallExpr:
+			if id, ok := core.Unparen(x.Fun).(*ast.Ident); ok {
+				if v, ok := info.Uses[id].(*types.Var); ok {
+					if _, isSig := v.Type().Underlying().(*types.Signature); isSig && !(v.Pos() >= body.Pos() && v.Pos() < body.End()) {
+						delivery = x
+					}
+				}
+			}
+		}
+		return true
+	})
 	bad := ""
 	skips := 0
+	if delivery != nil {
+		for _, p := range core.PathTo(body, delivery) {
+			is, ok := p.(*ast.IfStmt)
+			if !ok || !(is.Body.Pos() <= delivery.Pos() && delivery.End() <= is.Body.End()) {
+				continue
+			}
+			skips++
+			if !isPositive(is.Cond) && bad == "" {
+				bad = "not (" + core.ExprStr(is.Cond) + ")"
+				o.Pos = r.P.Rel(is.Pos())
+			}
+		}
+	}
 	for _, st := range body.List {
 		is, ok := st.(*ast.IfStmt)
 		if !ok {
